@@ -40,7 +40,9 @@ func main() {
 		"mut: every exported field of BlockHeader/TxBody mutated singly (bit flip, append, truncate) against all four digests; "+
 		"non-trivial = the operation reached a non-error model clause; distinct by (op, answer)")
 	defer run.Finish()
-	rng = run.Rng
+	// vh.NewRng(seed) starts splitmix64 at seed*gamma+c, so the streams of seeds k and k+1 are the same stream shifted by one
+	// draw and re-synchronise quickly; forking through one mixed output gives unrelated streams per seed.
+	rng = run.Rng.Fork()
 	digests()
 	merkles()
 	receipts()
